@@ -198,7 +198,72 @@ def lazy_lines():
                 yield ('lazy', ['10. w', ' ' + raw], '<ol start="10">\n<li>w\n%s</li>\n</ol>\n' % want, dict(container='ordered item', line=' ' + raw), False)
 
 
-FAMILIES = dict(list_tab=list_tabs, lazy=lazy_lines, fence=fences, atx=atx, setext=setext, indented=indented, html=html_blocks, table=tables, para=paragraphs, hr=breaks)
+# ------------------------------------------------------------------------------------------- counts, sizes and boundary values
+def bounds():
+    """the same constructs at the boundary values of the specification and beyond the single-digit / small-count range"""
+    def li(tag, items, attr=''):
+        return '<%s%s>\n%s</%s>\n' % (tag, attr, ''.join('<li>%s</li>\n' % i for i in items), tag)
+    # ordered list start numbers: 1-9 digits, leading zeros; ten digits are no list marker
+    for num, start in (('0', 0), ('1', 1), ('9', 9), ('10', 10), ('99', 99), ('100', 100), ('007', 7), ('123456789', 123456789), ('000000001', 1)):
+        for d in '.)':
+            yield ('bounds', ['%s%s w' % (num, d)], li('ol', ['w'], '' if start == 1 else ' start="%d"' % start), dict(what='ordered start', marker=num + d), False)
+    for num in ('1234567890', '0000000001'):
+        yield ('bounds', ['%s. w' % num], '<p>%s. w</p>\n' % num, dict(what='ten digits', marker=num), False)
+    # the marker grows from one to two (and three) digits inside one list; continuation lines follow the width of their own item
+    for first in (8, 9, 98, 99):
+        items = list(range(first, first + 4))
+        lines = []
+        for n in items:
+            m = '%d. ' % n
+            lines += [m + 'i%d' % n, ' ' * len(m) + 'c%d' % n]
+        yield ('bounds', lines, li('ol', ['i%d\nc%d' % (n, n) for n in items], ' start="%d"' % first), dict(what='marker width grows', first=first), False)
+    for n in (9, 10, 11, 12, 30):
+        yield ('bounds', ['%d. i%d' % (i, i) for i in range(1, n + 1)], li('ol', ['i%d' % i for i in range(1, n + 1)]), dict(what='items', n=n), False)
+        yield ('bounds', ['- i%d' % i for i in range(1, n + 1)], li('ul', ['i%d' % i for i in range(1, n + 1)]), dict(what='bullet items', n=n), False)
+    # tables with many columns / rows
+    for ncol in (9, 10, 11, 17):
+        al = [(None, '---', 'left'), (0, ':-:', 'center'), (1, '--:', 'right')]
+        cols = [al[i % 3] for i in range(ncol)]
+        head = '| ' + ' | '.join('h%d' % i for i in range(ncol)) + ' |'
+        delim = '| ' + ' | '.join(c[1] for c in cols) + ' |'
+        rows = ['| ' + ' | '.join('r%dc%d' % (r, i) for i in range(ncol)) + ' |' for r in range(12)]
+        th = ''.join('<th align="%s">h%d</th>\n' % (c[2], i) for i, c in enumerate(cols))
+        body = ''.join('<tr>\n%s</tr>\n' % ''.join('<td align="%s">r%dc%d</td>\n' % (c[2], r, i) for i, c in enumerate(cols)) for r in range(12))
+        yield ('bounds', [head, delim] + rows, '<table>\n<thead>\n<tr>\n%s</tr>\n</thead>\n<tbody>\n%s</tbody>\n</table>\n' % (th, body), dict(what='table columns', n=ncol), False)
+    # many inline elements in one paragraph / heading
+    for n in (9, 10, 16, 17, 33):
+        yield ('bounds', [' '.join('*e%d*' % i for i in range(n))], '<p>%s</p>\n' % ' '.join('<em>e%d</em>' % i for i in range(n)), dict(what='emphasis count', n=n), False)
+        yield ('bounds', [' '.join('[t%d](/u%d)' % (i, i) for i in range(n))], '<p>%s</p>\n' % ' '.join('<a href="/u%d">t%d</a>' % (i, i) for i in range(n)), dict(what='link count', n=n), False)
+        yield ('bounds', ['## ' + ' '.join('`c%d`' % i for i in range(n))], '<h2>%s</h2>\n' % ' '.join('<code>c%d</code>' % i for i in range(n)), dict(what='code spans in a heading', n=n), False)
+        yield ('bounds', ['x' * n + ' ' + '`' * n + 'c' + '`' * n], '<p>%s <code>c</code></p>\n' % ('x' * n), dict(what='backtick run length', n=n), False)
+    # nesting depth
+    for n in (9, 10, 11, 20):
+        yield ('bounds', ['> ' * n + 'w'], '<blockquote>\n' * n + '<p>w</p>\n' + '</blockquote>\n' * n, dict(what='quote depth', n=n), False)
+        yield ('bounds', ['- ' * n + 'w'], '<ul>\n<li>\n' * (n - 1) + '<ul>\n<li>w</li>\n</ul>\n' + '</li>\n</ul>\n' * (n - 1), dict(what='list depth', n=n), False)
+        yield ('bounds', [' '.join('*_'[i % 2] + 'x' for i in range(n)) + ' w ' + ' '.join('x' + '*_'[i % 2] for i in reversed(range(n)))],
+               '<p>' + '<em>x ' * n + 'w' + ' x</em>' * n + '</p>\n', dict(what='emphasis depth', n=n), False)
+    # long lines and words
+    for n in (255, 256, 1023, 1024, 4095, 4096, 4097):
+        yield ('bounds', ['w' * n], '<p>%s</p>\n' % ('w' * n), dict(what='word length', n=n), False)
+        yield ('bounds', [' '.join(['ab'] * (n // 3))], '<p>%s</p>\n' % ' '.join(['ab'] * (n // 3)), dict(what='line length', n=n), False)
+        yield ('bounds', ['# ' + 'w' * n], '<h1>%s</h1>\n' % ('w' * n), dict(what='heading length', n=n), False)
+    # link labels: at most 999 characters between the brackets
+    for n in (1, 99, 100, 998, 999):
+        lab = 'l' * n
+        yield ('bounds', ['[%s]: /u' % lab, '', '[%s] [t][%s]' % (lab, lab)], '<p><a href="/u">%s</a> <a href="/u">t</a></p>\n' % lab, dict(what='label length', n=n), False)
+    # autolink scheme: 2-32 characters
+    for n in (1, 2, 3, 31, 32, 33):
+        sch = 'a' * n
+        ok = 2 <= n <= 32
+        yield ('bounds', ['<%s:x>' % sch], '<p><a href="%s:x">%s:x</a></p>\n' % (sch, sch) if ok else '<p>&lt;%s:x&gt;</p>\n' % sch, dict(what='scheme length', n=n), False)
+    # indentation 3 vs 4 columns
+    for line, html3 in (('# w', '<h1>w</h1>\n'), ('***', '<hr />\n'), ('> w', '<blockquote>\n<p>w</p>\n</blockquote>\n'), ('- w', '<ul>\n<li>w</li>\n</ul>\n'),
+                        ('1. w', '<ol>\n<li>w</li>\n</ol>\n'), ('<div>', '   <div>\n'), ('[r]: /u', '')):
+        yield ('bounds', ['   ' + line], html3, dict(what='indent 3', line=line), False)
+        yield ('bounds', ['    ' + line], '<pre><code>%s\n</code></pre>\n' % esc(line), dict(what='indent 4', line=line), False)
+
+
+FAMILIES = dict(bounds=bounds, list_tab=list_tabs, lazy=lazy_lines, fence=fences, atx=atx, setext=setext, indented=indented, html=html_blocks, table=tables, para=paragraphs, hr=breaks)
 CONTEXTS = ['alone', 'then-paragraph', 'after-paragraph', 'in-quote', 'in-list-item', 'then-paragraph-directly']
 
 
@@ -219,7 +284,7 @@ def in_context(case, ctx):
         return '\n'.join(lines + ['after']) + '\n', html + '<p>after</p>\n', 0
     if ctx == 'after-paragraph':
         return '\n'.join(['before', ''] + lines) + '\n', '<p>before</p>\n' + html, 2
-    if fam in ('list-tab', 'lazy') and ctx not in ('alone', 'after-paragraph'):
+    if fam in ('list-tab', 'lazy', 'bounds') and ctx not in ('alone', 'after-paragraph'):
         return None         # whole small documents of their own; placed at top level only
     if ctx == 'in-quote':
         if fam == 'setext' or has_tab or fam == 'indented-tab':
